@@ -10,6 +10,7 @@
    statistics, the same attachment / metadata indexes up to order, and - after time pruning, topic
    pruning at the footer and sorting - the identical list of chunk indexes, i.e. the same chunks are
    loaded in the same order; CanUseIndex and the choice of iterator agree. *)
+From Mcap Require ConstsTie LayoutTie DecisionTieR. (* regenerated ties to /repo's source that this property's model relies on *)
 From Coq Require Import List NArith ZArith Bool Permutation.
 From Coq.Strings Require Import Byte.
 From RecordUpdate Require Import RecordSet.
